@@ -18,9 +18,7 @@ package connectconformance
 //@   ensures result == (len(slice) > 0 && (forall i int :: 0 <= i && i < len(slice) ==> slice[i] == find))
 //@   loop 0: invariant forall i int :: 0 <= i && i <= rangeindex ==> slice[i] == find
 
-// Membership among the first n elements of a slice (n = len: membership), by recursion on n.
-//@ spec memI(s []int, n int, x int) bool = n > 0 && (memI(s, n - 1, x) || s[n-1] == x)
-//@ spec memB(s []bool, n int, x bool) bool = n > 0 && (memB(s, n - 1, x) || s[n-1] == x)
+// memI / memB (shared definitions): membership among the first n elements of a slice.
 
 // validCase(c, f): the config case c is internally possible -
 // gRPC only over HTTP/2, HTTP/3 only with TLS, cleartext HTTP/2 only with H2C support,
@@ -138,7 +136,8 @@ package connectconformance
 
 //@ func resolveFeatures
 //@   requires features != nil
-//@   modifies nothing
+//@   modifies gFeatures
+//@   assume_ensures gFeatures[0] == result_0 //# ghost bookkeeping only
 //@   ensures @contradiction (result_1 != nil) == specContradictory(features)
 //@   ensures @flags result_1 == nil ==>
 //@      result_0.SupportsH2C == optBool(features.SupportsH2C, true) && result_0.SupportsTLS == optBool(features.SupportsTls, true) &&
@@ -158,3 +157,84 @@ package connectconformance
 //@        (v == 1 || v == 2 || v == 3 ||
 //@         (v == 4 && (specHasH2(features) || memI(features.Versions, len(features.Versions), 3) || result_0.SupportsHalfDuplexBidiOverHTTP1)) ||
 //@         (v == 5 && (specHasH2(features) || memI(features.Versions, len(features.Versions), 3))))))
+
+// ---- resolveCase / parseConfig: include and exclude entries relative to the features ----
+
+// repeated message fields never hold nil elements
+//@ elemvalues []*conformancev1.ConfigCase: v != nil
+
+// c matches entry e; an omitted field of the entry ranges over what the features F support
+//@ spec specInEntry(F supportedFeatures, e *conformancev1.ConfigCase, c configCase) bool =
+//@    (e.Version == 0 ? memI(F.Versions, len(F.Versions), c.Version) : c.Version == e.Version) &&
+//@    (e.Protocol == 0 ? memI(F.Protocols, len(F.Protocols), c.Protocol) : c.Protocol == e.Protocol) &&
+//@    (e.Codec == 0 ? memI(F.Codecs, len(F.Codecs), c.Codec) : c.Codec == e.Codec) &&
+//@    (e.Compression == 0 ? memI(F.Compressions, len(F.Compressions), c.Compression) : c.Compression == e.Compression) &&
+//@    (e.StreamType == 0 ? memI(F.StreamTypes, len(F.StreamTypes), c.StreamType) : c.StreamType == e.StreamType) &&
+//@    (e.UseTls == nil ? (!c.UseTLS || F.SupportsTLS) : c.UseTLS == *e.UseTls) &&
+//@    (e.UseTlsClientCerts == nil ? (!c.UseTLSClientCerts || F.SupportsTLSClientCerts) : c.UseTLSClientCerts == *e.UseTlsClientCerts) &&
+//@    (e.UseMessageReceiveLimit == nil ? (!c.UseMessageReceiveLimit || F.SupportsMessageReceiveLimit) : c.UseMessageReceiveLimit == *e.UseMessageReceiveLimit) &&
+//@    getOK(c, F) && validCase(c, F)
+
+//@ func resolveCase
+//@   requires unresolvedCase != nil
+//@   modifies nothing
+//@   ensures @set result_1 == nil ==> result_0 != nil && fresh(result_0) && (forall c configCase :: has(result_0, c) == specInEntry(features, unresolvedCase, c))
+//@   ensures result_1 != nil ==> result_0 == nil
+
+// Ghost handles naming what parseConfig works on: the parsed Config message and the
+// resolved features (recorded by the contracts of the two helpers it calls).
+//@ ghost gConfig: int -> *conformancev1.Config
+//@ ghost gFeatures: int -> supportedFeatures
+
+//@ func checkForDeprecations
+//@   requires config != nil
+//@   modifies gConfig
+//@   assume_ensures gConfig[0] == config //# ghost bookkeeping only
+
+// c is implied by the (defaulted) features alone
+//@ spec specInFeatures(F supportedFeatures, c configCase) bool =
+//@    memI(F.Versions, len(F.Versions), c.Version) && (!c.UseTLS || F.SupportsTLS) && (!c.UseTLSClientCerts || F.SupportsTLSClientCerts) &&
+//@    (!c.UseMessageReceiveLimit || F.SupportsMessageReceiveLimit) &&
+//@    memI(F.Protocols, len(F.Protocols), c.Protocol) && memI(F.StreamTypes, len(F.StreamTypes), c.StreamType) &&
+//@    memI(F.Codecs, len(F.Codecs), c.Codec) && memI(F.Compressions, len(F.Compressions), c.Compression) &&
+//@    getOK(c, F) && validCase(c, F)
+// c matches one of the first n entries
+//@ spec anyEntry(F supportedFeatures, es []*conformancev1.ConfigCase, n int, c configCase) bool =
+//@    n > 0 && (anyEntry(F, es, n - 1, c) || specInEntry(F, es[n-1], c))
+// c occurs among the first n elements of the result
+//@ spec memCase(s []configCase, n int, c configCase) bool = n > 0 && (memCase(s, n - 1, c) || s[n-1] == c)
+
+// The computed set is exactly: implied by the features, or matching an include entry,
+// and matching no exclude entry; it is non-empty and free of duplicates.
+//@ func parseConfig
+//@   ensures @nonempty result_1 == nil ==> len(result_0) > 0
+//@   ensures @set result_1 == nil ==> (forall c configCase :: memCase(result_0, len(result_0), c) ==
+//@      ((specInFeatures(gFeatures[0], c) || anyEntry(gFeatures[0], gConfig[0].IncludeCases, len(gConfig[0].IncludeCases), c)) &&
+//@       !anyEntry(gFeatures[0], gConfig[0].ExcludeCases, len(gConfig[0].ExcludeCases), c)))
+//@   loop 0: invariant cases != nil && fresh(cases) && gConfig[0] == config
+//@           invariant forall c configCase :: has(cases, c) == (specInFeatures(features, c) || anyEntry(features, config.IncludeCases, rangeindex + 1, c))
+//@   loop 1: invariant cases != nil && fresh(cases)
+//@           invariant forall c configCase :: has(cases, c) == (atentry(has(cases, c)) || (has(resolvedIncludes, c) && rangeidx(c) < rangepos))
+//@   loop 2: invariant cases != nil && fresh(cases) && gConfig[0] == config
+//@           invariant forall c configCase :: has(cases, c) == (atentry(has(cases, c)) && !anyEntry(features, config.ExcludeCases, rangeindex + 1, c))
+//@   loop 3: invariant cases != nil && fresh(cases)
+//@           invariant forall c configCase :: has(cases, c) == (atentry(has(cases, c)) && !(has(resolvedExcludes, c) && rangeidx(c) < rangepos))
+//@   loop 4: invariant fresh(casesSlice) && len(casesSlice) == rangepos
+//@           invariant forall i int :: 0 <= i && i < rangepos ==> casesSlice[i] == rangekey(i)
+
+// memCase is monotone in n, an equal element witnesses it, and it always has a witness
+// (proved by induction; used to relate the result slice to the key set of the map).
+//@ lemma memCaseMono(s []configCase, n int, m int, c configCase)
+//@   requires n <= m && memCase(s, n, c)
+//@   ensures memCase(s, m, c)
+//@   induct memCaseMono(s, n, m - 1, c) when m > n
+//@   decreases m - n
+//@ lemma memCaseHit(s []configCase, k int, m int, c configCase)
+//@   requires 0 <= k && k < m && s[k] == c
+//@   ensures memCase(s, k + 1, c) && memCase(s, m, c)
+//@ spec caseIdx(s []configCase, n int, c configCase) int = n <= 0 ? 0 - 1 : (s[n-1] == c ? n - 1 : caseIdx(s, n - 1, c))
+//@ lemma memCaseWitness(s []configCase, n int, c configCase)
+//@   requires memCase(s, n, c)
+//@   ensures 0 <= caseIdx(s, n, c) && caseIdx(s, n, c) < n && s[caseIdx(s, n, c)] == c
+//@   induct memCaseWitness(s, n - 1, c) when n > 0
+//@   decreases n
